@@ -2,4 +2,5 @@ SPECIFICATION Spec
 INVARIANTS
   TemplateMatchesDoc
   CaseReported
+  ForwardingKeepsLvaluesIntact
 CHECK_DEADLOCK FALSE
